@@ -350,7 +350,8 @@ theorem dataArm_errsIn {A : Span} (v : SVariant ν) (hv : VariantSpansIn A v) (n
                     (coreLoop_inv s hv items hi {} st (stInv_init A) h)
 
 /-- the emitted `from_list` of an enum: too few / too many items and a bare literal are reported
-    without a span, an unknown variant at the item, the rest by the selected variant -/
+    without a span, an unknown variant at the item, the rest by the selected variant and then
+    spanned with the item that selected it -/
 theorem enumFromList_errsIn {A : Span} (e : SEnum ν) (hv : ∀ v ∈ e.variants, VariantSpansIn A v)
     (outer : List NestedMeta) (hi : NestedMeta.spanWFList A outer = true) :
     (enumFromList e outer).ErrsIn A := by
@@ -365,7 +366,7 @@ theorem enumFromList_errsIn {A : Span} (e : SEnum ν) (hv : ∀ v ∈ e.variants
         refine errsIn_err (Err.AllWithin.withSpan (Err.Unspanned.allWithin ?_ A) hi.1)
         unfold SEnum.unknownErr
         split <;> rfl
-    | some v => exact dataArm_errsIn v (hv v (List.mem_of_find?_eq_some ha)) nested hi.2 hi.1
+    | some v => exact (dataArm_errsIn v (hv v (List.mem_of_find?_eq_some ha)) nested hi.2 hi.1).withSpan hi.1
   · exact errsIn_err ((unsp_unsupportedFormat _).allWithin A)
   · exact errsIn_err ((unsp_new _).allWithin A)
 
